@@ -1044,7 +1044,7 @@ pub extern "C" fn send_time_limit(fd: c_int) -> u64 {
                 panic!("getsockopt failed: {error}");
             }
             let time_limit = get_time_limit(&tv);
-            assert!(SEND_TIME_LIMIT.insert(fd, time_limit).is_none());
+            _ = SEND_TIME_LIMIT.insert(fd, time_limit);
             time_limit
         },
         |v| *v.value(),
@@ -1073,11 +1073,18 @@ pub extern "C" fn recv_time_limit(fd: c_int) -> u64 {
                 panic!("getsockopt failed: {error}");
             }
             let time_limit = get_time_limit(&tv);
-            assert!(RECV_TIME_LIMIT.insert(fd, time_limit).is_none());
+            _ = RECV_TIME_LIMIT.insert(fd, time_limit);
             time_limit
         },
         |v| *v.value(),
     )
+}
+
+/// Forget the cached time limits of a descriptor that is being closed,
+/// the number may be reused by an unrelated socket.
+pub(crate) fn clean_time_limit(fd: c_int) {
+    _ = SEND_TIME_LIMIT.remove(&fd);
+    _ = RECV_TIME_LIMIT.remove(&fd);
 }
 
 pub(crate) fn get_time_limit(tv: &libc::timeval) -> u64 {
